@@ -123,6 +123,14 @@ CHECKS = {
         "(5 400 programs); every loop kind (range(a,b[,s]) for a,b in 1..3, s in {none,1,2,-1}; lists; condition) x exit statement (none, break, "
         "continue, raise, return) at every iteration x nesting; if/elif/else chains x all truth assignments. Oracle: marker trace and final "
         "error (type, detail, data) equal the reference"),
+ "C06": dict(engine="engine-B", cat="exploration", ref="DESIGN.md 5, 7/C06", note="excluded as non-terminating by specification: sleep with a positive number, valid trigger registrations; evaluation runs under a deterministic step budget (harness debugger counting node visits); a panic on a worker goroutine kills the worker subprocess and is attributed to the case in progress through a side file", tech="bounded exhaustive enumeration of ill-typed and boundary-valued programs with 'no panic reaches the host' as oracle (recover in the evaluating goroutine plus subprocess death for worker goroutines), plus try/except catchability of every raised error",
+   text="every binary and prefix operator x U^2 / U over a 20-value universe (null, booleans, 0, +-1, fractions, 1e300, strings, lists, maps, a function) as "
+        "literals and through variables; every built-in function x every argument vector of length 0-3 (thorough 0-4); loop / if / new / default "
+        "parameter / destructuring / mutex / interpolation forms over U^2; index and field reads, writes, nested accesses, map literal keys over "
+        "U^2 / U^3 and boundary indices; every sink attribute x U; every statematch value x event state value through the real processor; a failing "
+        "sink next to a second sink and a second event; every token sequence (C07 generator, length <= 3 full alphabet, 4-5 reduced) that the parser "
+        "accepts, validated and evaluated (2 million evaluations quick). Oracle: no panic, no killed worker; an error raised by a statement is "
+        "catchable by try/except; a failing sink does not fail its caller"),
 }
 
 ENGINES = [
